@@ -56,6 +56,16 @@ FIXED = [
      ("try { for (c : \"ab\") { cb(3); throw(c) } } catch(e) { cb(4) }", None),
      ("{ for (e : range(v)) { { cb(e); if (e == 2) { break } } } }", None),
      ("var c = 5", "c")],
+    # calls whose VALUE IS UNUSED (the optimizer gives them their own node, which saves no parameters) and whose argument needs a conversion,
+    # as the outermost call of a statement inside a block / try / if / loop: the converted temporary must not stay behind
+    [("var d = DerivedC()", "d"),
+     ("{ takes_base(d); 0 }", None),
+     ("try { takes_base(DerivedC()); cb(1) } catch(e) { cb(2) }", None),
+     ("if (cb(1) > 0) { takes_string(OtherC()); cb(3) }", None),
+     ("var wi = 0", "wi"),
+     ("while (wi < 2) { takes_base(d); ++wi; cb(wi) }", None),
+     ("{ takes_base(d) }", None),
+     ("{ takes_string(OtherC()); cb(4); takes_base(d) }", None)],
 ]
 
 
@@ -89,6 +99,9 @@ class Gen:
         r = self.r
         c = r.random()
         if d <= 0 or c < 0.2:
+            if r.random() < 0.25:
+                # a converting call whose value is unused, right before a callback site
+                return r.choice(["takes_base(DerivedC())", "takes_string(OtherC())"]) + f"; cb({self.expr(1, vars_)})"
             return f"cb({self.expr(1, vars_)})"
         if c < 0.32:
             v = self.fresh("l")
